@@ -4,6 +4,9 @@ From Coq Require Import ZArith QArith List Bool.
 Require Import DS.Model.Value DS.Gen.GenPrune DS.Model.Prune DS.Proofs.PruneProofs.
 Require Import DS.Model.BoundPrim DS.Gen.GenBound DS.Model.Bound DS.Proofs.BoundProofs.
 Require Import DS.Model.ManifestPrim DS.Gen.GenManifest13 DS.Model.Manifest13 DS.Proofs.Manifest13Proofs.
+Require Import DS.Model.FieldKey DS.Gen.GenFieldKey DS.Model.SchemaIds DS.Proofs.FieldKeyProofs DS.Proofs.SchemaIdsProofs
+               DS.Proofs.Schema13Proofs DS.Proofs.EntryCodec13.
+Require DS.Model.ManifestCodec DS.Gen.GenEntryCodec DS.Proofs.EntryCodecProofs.
 Import ListNotations.
 Open Scope Z_scope.
 
@@ -18,7 +21,9 @@ Theorem C13_prune_sound : forall (X : value -> value -> bool) (schema : list (Z 
 Proof. exact prune_sound. Qed.
 Print Assumptions C13_prune_sound.
 
-(* The result with pruning equals the result when every file is read (same rows, same order). *)
+(* The result with pruning equals the result when every file is read (same rows, same order).  `scan` is total here: the
+   statement is about scans on which pyarrow does not refuse the literal (C12's no-refusal side; when the UNPRUNED scan raises,
+   a pruned one may return rows without raising -- DESIGN.md C13 "Interpretation"; the end-to-end oracle skips those). *)
 Theorem C13_scan_equal : forall (X : value -> value -> bool) (schema : list (Z * Z)) (es : list fexpr) (files : list (list row)),
   NoDup (map snd schema) -> (forall f, In f files -> wf_file schema f) ->
   scan X es (prune (file_bounds schema) schema es files) = scan X es files.
@@ -36,8 +41,13 @@ Print Assumptions C13_bounds_true.
 
 (* Bounds survive the manifest round trip type-faithfully: decoding the encoded bound gives back the
    very value -- same kind (bool stays bool, int stays int: the isinstance ORDER in the regenerated
-   encoder matters), same number (any integer magnitude, any float incl. NaN / inf / -0.0 / float32
-   values), same string, same date / time / timestamp. *)
+   encoder matters), same number (any integer magnitude, any float: every finite double is a rational
+   of the model, plus NaN / +-inf), same string.  Not said by this theorem: the SIGN of a float zero
+   (the model's numbers have one zero; -0.0 is checked on the real codec by the codec oracle), and the
+   text form of dates / times / timestamps (the payload of a temporal bound is abstract here:
+   fromisoformat(isoformat(x)) = x is assumption JSON-exact, checked on the real codec by the oracle);
+   the tag dispatch for them IS the regenerated one.  The legacy (untagged) decoder and the JSON-manifest
+   fallback of read_manifest_file are not modelled: the writer never produces their inputs. *)
 Theorem C13_bound_roundtrip : forall v : value, boundable v = true -> dec (enc v) = v.
 Proof. exact bound_roundtrip. Qed.
 Print Assumptions C13_bound_roundtrip.
@@ -53,6 +63,14 @@ Theorem C13_manifest_roundtrip : forall (added existing : list dfb),
   via_manifest added existing = map norm_df (added ++ existing).
 Proof. exact via_manifest_roundtrip. Qed.
 Print Assumptions C13_manifest_roundtrip.
+
+(* The pruning decision on the DataFile read back from the manifest IS the decision on the DataFile that was written. *)
+Theorem C13_prune_decision_via_manifest : forall (added existing : list dfb) (ids : list (Z * Z)) (es : list fexpr),
+  (forall d, In d (added ++ existing) -> boundable_df d) ->
+  map (fun d => file_may_match (fst (df_view d)) (snd (df_view d)) ids es) (via_manifest added existing)
+  = map (fun d => file_may_match (fst (df_view d)) (snd (df_view d)) ids es) (added ++ existing).
+Proof. exact prune_decision_via_manifest. Qed.
+Print Assumptions C13_prune_decision_via_manifest.
 
 (* A file listed in a manifest is skipped -- on the bounds READ BACK from that manifest -- only when
    no row in it can satisfy the predicate. *)
@@ -72,6 +90,110 @@ Theorem C13_scan_equal_via_manifest : forall (X : value -> value -> bool) (schem
   scan X es (prune_via_manifest schema es added existing) = scan X es (added ++ existing).
 Proof. exact scan_via_manifest_equal. Qed.
 Print Assumptions C13_scan_equal_via_manifest.
+
+(* ------------------------------------------------------------------ the KEYS of the bounds: field ids
+   A DataFile's bounds are keyed by the schema's field ids -- whatever Python object the schema carries under "id".
+   create_manifest_file stores each key as str(id), read_manifest_file reads int(key), both in dict comprehensions
+   (Model/FieldKey.v: kenc = str on None / bool / int / str objects, kdec = Python's int() parser, dict_of = a dict comprehension
+   where a later equal key replaces the earlier value). *)
+
+(* Every schema the constructor accepts has pairwise different INT field ids -- proved about the guards REGENERATED from
+   Schema.__post_init__ (Gen/GenFieldKey.v gen_id_rejected; the field loop is Model/SchemaIds.v).  With a constructor that only
+   tests `f_id in seen_ids` this theorem is false (1 and "1" pass) and its proof does not compile. *)
+Theorem C13_schema_ids_are_ints : forall ids : list value,
+  schema_ids_ok ids = true -> ids_are_ints ids /\ NoDup (int_ids ids) /\ ids = map VInt (int_ids ids).
+Proof. exact schema_ids_are_ints. Qed.
+Print Assumptions C13_schema_ids_are_ints.
+
+(* int(str(z)) = z for EVERY int z: the decimal rendering and Python's int() parser (whitespace, sign, underscores) are inverse. *)
+Theorem C13_key_codec_inverse : forall z : Z, kenc (VInt z) = Some (str_of_Z z) /\ kdec (str_of_Z z) = IntOk z.
+Proof. exact key_codec_inverse. Qed.
+Print Assumptions C13_key_codec_inverse.
+
+(* Bounds (any statistic, any payload type A) come back from the manifest under the field id they were stored under: a map
+   keyed by pairwise different int ids survives the two dict comprehensions unchanged -- same entries, same order, same keys. *)
+Theorem C13_bound_keys_roundtrip : forall (A : Type) (m : list (value * A)),
+  ids_are_ints (map fst m) -> py_distinct (map fst m) ->
+  key_trip m = TripOk (int_keyed m) /\ m = as_py (int_keyed m).
+Proof. exact @bound_keys_roundtrip. Qed.
+Print Assumptions C13_bound_keys_roundtrip.
+
+(* ... in particular every statistics map whose keys are ids of an ACCEPTED schema (the columns that have the statistic). *)
+Theorem C13_accepted_schema_keys_roundtrip : forall (A : Type) (ids : list value) (m : list (value * A)),
+  schema_ids_ok ids = true -> (forall k, In k (map fst m) -> In k ids) -> py_distinct (map fst m) ->
+  key_trip m = TripOk (int_keyed m) /\ m = as_py (int_keyed m).
+Proof. exact @accepted_schema_keys_roundtrip. Qed.
+Print Assumptions C13_accepted_schema_keys_roundtrip.
+
+(* `ids_are_ints` cannot be dropped: for ids that are merely pairwise != (all that the duplicate test alone guarantees) the
+   statement is FALSE -- 1 and "1" are two keys before the trip and one key after it (witness below: column b's bounds land
+   under column a's id, and `a == 1` skips the file that holds the row). *)
+Theorem C13_bound_keys_roundtrip_distinct_ids_refuted : ~ keys_roundtrip_for_distinct_ids.
+Proof. exact keys_roundtrip_for_distinct_ids_refuted. Qed.
+Print Assumptions C13_bound_keys_roundtrip_distinct_ids_refuted.
+
+(* The pruning theorems for every ACCEPTED schema: the uniqueness of field ids is no longer a hypothesis, it follows from the
+   regenerated constructor guards. *)
+Theorem C13_scan_equal_accepted_schema : forall (X : value -> value -> bool) (ps : list (Z * value)) (es : list fexpr)
+    (added existing : list (list row)),
+  schema_ids_ok (map snd ps) = true -> (forall f, In f (added ++ existing) -> wf_file (int_schema ps) f) ->
+  scan X es (prune_via_manifest (int_schema ps) es added existing) = scan X es (added ++ existing).
+Proof. exact scan_equal_accepted_schema. Qed.
+Print Assumptions C13_scan_equal_accepted_schema.
+
+(* The whole manifest ENTRY (Gen/GenEntryCodec.v: the `record = {...}` literal and the DataFile the reader builds, regenerated
+   field by field) over the REAL primitive codecs -- the regenerated bound codec and Python's str / int on the keys: a DataFile
+   with int-keyed, boundable bounds written as ADDED and read back has its bounds; carried over as EXISTING into a rewritten
+   manifest (partial delete) and read back again, it still has them.  (_safe_int is the identity on ints.) *)
+Theorem C13_entry_survives_rewrite : forall (safe_int pstr : Z -> Z), (forall z, safe_int z = z) ->
+  forall (id : Z) (sq : option Z) (id' : Z) (sq' : option Z) (df : ManifestCodec.datafile value), bounds_boundable df ->
+  let once := read_entry13 (write_entry13 safe_int pstr GenEntryCodec.gen_status_added id sq df) in
+  let twice := read_entry13 (write_entry13 safe_int pstr GenEntryCodec.gen_status_existing id' sq' once) in
+  ManifestCodec.df_lower once = ManifestCodec.norm_map (ManifestCodec.df_lower df)
+  /\ ManifestCodec.df_upper once = ManifestCodec.norm_map (ManifestCodec.df_upper df)
+  /\ ManifestCodec.df_lower twice = ManifestCodec.norm_map (ManifestCodec.df_lower df)
+  /\ ManifestCodec.df_upper twice = ManifestCodec.norm_map (ManifestCodec.df_upper df)
+  /\ ManifestCodec.df_path twice = ManifestCodec.df_path df.
+Proof. exact entry_rewrite_real_codecs. Qed.
+Print Assumptions C13_entry_survives_rewrite.
+
+(* Non-vacuity of the key theorems.  Accepted: ids 7, 2, -3, 2^70 in any order; their map survives the trip, keys rendered
+   "7", "2", "-3", "1180591620717411303424".  Python's int() accepts more than str() produces: int(" +1_0 ") = 10, int("07") = 7.
+   Refused by the regenerated guards: 1 next to "1", True, None, 1.0.  And what the refusal is for: with ids 1 and "1" (pairwise
+   !=), bounds a: 1..1 and b: 100..100 come back as {1: 100}; `a == 1` then skips the file although its row matches. *)
+Example C13_keys_nonvacuous :
+  schema_ids_ok [VInt 7; VInt 2; VInt (-3); VInt (2 ^ 70)] = true
+  /\ key_trip [(VInt 7, VInt 1); (VInt 2, VStr [97]); (VInt (-3), VBool true); (VInt (2 ^ 70), VFlt NaN)]
+     = TripOk [(7, VInt 1); (2, VStr [97]); (-3, VBool true); (2 ^ 70, VFlt NaN)]
+  /\ map kenc [VInt 7; VInt (-3); VInt 0; VInt (2 ^ 70)]
+     = [Some [55]; Some [45; 51]; Some [48]; Some [49;49;56;48;53;57;49;54;50;48;55;49;55;52;49;49;51;48;51;52;50;52]]
+  /\ kdec [32; 43; 49; 95; 48; 32] = IntOk 10 /\ kdec [48; 55] = IntOk 7 /\ kdec [49; 46; 48] = IntValueError
+  /\ schema_ids_ok [VInt 1; VStr [49]] = false /\ schema_ids_ok [VBool true] = false /\ schema_ids_ok [VNull] = false
+  /\ schema_ids_ok [VFlt (Fin (1 # 1))] = false /\ schema_ids_ok [VInt 1; VInt 1] = false
+  /\ py_distinct (map fst collide_map)
+  /\ key_trip collide_map = TripOk [(1, VInt 100)]
+  /\ file_may_match [(1, VInt 100)] [(1, VInt 100)] [(0, 1)] [{| fcol := 0; fop_ := EQ; fsval := VInt 1; flval := [] |}] = false
+  /\ row_selected (fun _ _ => false) [{| fcol := 0; fop_ := EQ; fsval := VInt 1; flval := [] |}] [(0, VInt 1); (1, VInt 100)] = true.
+Proof. vm_compute. repeat split; auto. Qed.
+
+(* Non-vacuity of the entry theorem: a DataFile with bounds {3: 5 .. 9, 12: "a" .. "b"} keeps them through write / read / rewrite / read. *)
+Definition ex_entry : ManifestCodec.datafile value :=
+  {| ManifestCodec.df_path := 1; ManifestCodec.df_format := 0; ManifestCodec.df_partition := []; ManifestCodec.df_count := 2;
+     ManifestCodec.df_size := 10; ManifestCodec.df_column_sizes := None; ManifestCodec.df_value_counts := Some [(3, 2)];
+     ManifestCodec.df_null_counts := None;
+     ManifestCodec.df_lower := Some [(3, VInt 5); (12, VStr [97])]; ManifestCodec.df_upper := Some [(3, VInt 9); (12, VStr [98])];
+     ManifestCodec.df_checksum := None; ManifestCodec.df_added := None; ManifestCodec.df_seq := None |}.
+Example C13_entry_nonvacuous :
+  bounds_boundable ex_entry
+  /\ ManifestCodec.df_lower (read_entry13 (write_entry13 (fun z => z) (fun z => z) GenEntryCodec.gen_status_existing 8 (Some 2)
+        (read_entry13 (write_entry13 (fun z => z) (fun z => z) GenEntryCodec.gen_status_added 7 (Some 1) ex_entry))))
+     = Some [(3, VInt 5); (12, VStr [97])]
+  /\ ManifestCodec.r_lower (write_entry13 (fun z => z) (fun z => z) GenEntryCodec.gen_status_added 7 (Some 1) ex_entry)
+     = Some [([51], enc (VInt 5)); ([49; 50], enc (VStr [97]))].
+Proof.
+  split; [|vm_compute; split; reflexivity].
+  split; cbn; repeat constructor.
+Qed.
 
 (* Non-vacuity: a concrete two-column file {x: 5.0, NaN, NULL; s: "a","b","c"} meets the hypotheses,
    is pruned for x > 7, for s < "a" and for s IN ["d";"e"], and is NOT pruned for x != 5.0 nor for
